@@ -20,7 +20,7 @@ ASSUMPTIONS = [
     "documents that do not tokenize or crash a rule are skipped (C01/C07), counted",
     "API argument errors (empty string) are API contract, not in scope",
 ]
-LIMIT = {"Z1": 10194, "Z3": 10000, "Z4": 4000, "Z7": 10000}
+LIMIT = {"Z1": 10194, "Z3": 10000, "Z4": 4000, "Z7": 10000, "Z11": 4000, "Z12": 10000}
 _LINE = re.compile(r"^(.*?):(\d+):(\d+): ([A-Z0-9]+): (.*)$")
 DIAG = [
     ["--log-level", "WARNING"], ["--log-level", "ERROR"], ["--stack-trace"], ["--stack-trace", "--log-level", "WARNING"],
@@ -35,7 +35,7 @@ def universe_hash():
 
 
 def plan(tier, seed, complete=False):
-    items, zinfo = PL.plan_docs(tier, seed, complete, quick={"Z1": 600, "Z3": 400, "Z4": 150, "Z7": 350}, z1_all=False, limit=LIMIT, zones=("Z1", "Z3", "Z4", "Z7"), force_b=True)
+    items, zinfo = PL.plan_docs(tier, seed, complete, quick={"Z1": 600, "Z3": 400, "Z4": 150, "Z7": 350, "Z11": 120, "Z12": 280}, z1_all=False, limit=LIMIT, zones=("Z1", "Z3", "Z4", "Z7", "Z11", "Z12"), force_b=True, check="C16")
     return {
         "items": items, "zones": zinfo, "exhaustive": False,
         "rule": "documents of the frozen universes with an index-chosen line-ending variant (LF, CR-LF, no final newline, non-ASCII suffix) x entry points "
@@ -83,6 +83,7 @@ def run_items(items, job):
     # verbose log levels write to stderr: keep the worker log small
     dn = os.open(os.devnull, os.O_WRONLY)
     os.dup2(dn, 2)
+    os.dup2(dn, 1)  # the API's verbose log levels write to the process's standard output
     R = PL.Result()
     for it in items:
         key, doc0 = PL.item_doc(it)
@@ -99,16 +100,25 @@ def run_items(items, job):
         # rule selection expressible both on the command line and through the API (every third document)
         sel_e, sel_d = (["md002", "md006"], ["md041"]) if idx % 3 == 0 else ([], [])
         sel_args = (["-e", ",".join(sel_e)] if sel_e else []) + (["-d", ",".join(sel_d)] if sel_d else [])
+        # every fourth document runs every entry point under the minimal return-code scheme
+        minimal = idx % 4 == 1
+        sch_args = ["--return-code-scheme", "minimal"] if minimal else []
+        sel_args = sch_args + sel_args
+        # documents with the logger's substitution character always get the verbose diagnostic variants
+        verbose = idx % 40 == 0 or "$" in doc
 
-        def api():
-            a = PyMarkdownApi().log_critical_and_above()
+        def api(level="critical"):
+            a = PyMarkdownApi()
+            a = {"critical": a.log_critical_and_above, "info": a.log_info_and_above, "debug": a.log_debug_and_above, "warning": a.log_warning_and_above}[level]()
+            if minimal:
+                a = a.set_string_property("mode.return_code_scheme", "minimal")
             for r_ in sel_e:
                 a = a.enable_rule_by_identifier(r_)
             for r_ in sel_d:
                 a = a.disable_rule_by_identifier(r_)
             return a
 
-        base = app.scan_files([p], enable=sel_e or None, disable=sel_d or None)
+        base = app.scan_files([p], enable=sel_e or None, disable=sel_d or None, extra=sch_args)
         if base.watchdog or base.tokenization_error or base.plugin_error or (base.err and "Error" in base.errtext):
             R.skip("scan-error(C01/C07)")
             continue
@@ -116,7 +126,7 @@ def run_items(items, job):
         ref4 = [(f[1], f[2], f[3], f[6]) for f in base.failures]
         R.see("variants", vname)
         # in-process scan-stdin (string)
-        o = app.scan_text(doc, enable=sel_e or None, disable=sel_d or None)
+        o = app.scan_text(doc, enable=sel_e or None, disable=sel_d or None, extra=sch_args)
         if [(f[1], f[2], f[3], f[5], f[6]) for f in o.failures] != ref or o.rc != base.rc:
             v.add("stdin-string-vs-file")
             detail["stdin"] = o.fail_tuples()[:10]
@@ -133,6 +143,14 @@ def run_items(items, job):
             got = [(f.line_number, f.column_number, f.rule_id, f.rule_description, f.extra_error_information or "") for f in r2.scan_failures]
             if got != ref:
                 v.add("api-scan_path-vs-file")
+            if verbose:
+                lvl = ("info", "debug", "warning")[idx % 3]
+                r3 = api(lvl).scan_string(doc)
+                R.count("api_calls")
+                R.count("api_verbose_log_calls")
+                got = [(f.line_number, f.column_number, f.rule_id, f.rule_description, f.extra_error_information or "") for f in r3.scan_failures]
+                if got != ref:
+                    v.add("api-log-level-changes-scan_string:" + lvl)
         except PyMarkdownApiException as e:
             v.add("api-exception")
             detail["api_exception"] = str(e)[:200]
@@ -150,8 +168,8 @@ def run_items(items, job):
                 detail["cli_stdin"] = [rc, out[:300], err[:200]]
         # diagnostics must be inert
         variants = [DIAG[idx % len(DIAG)]]
-        if idx % 40 == 0:
-            variants.append(DIAG_VERBOSE[(idx // 40) % len(DIAG_VERBOSE)])
+        if verbose:
+            variants.append(DIAG_VERBOSE[(idx // 40) % len(DIAG_VERBOSE) if idx % 40 == 0 else idx % len(DIAG_VERBOSE)])
         for extra in variants:
             extra = list(extra)
             R.count("diagnostic_variants")
@@ -163,7 +181,7 @@ def run_items(items, job):
             if os.path.exists(os.path.join(sb.cwd, "LOG")):
                 os.remove(os.path.join(sb.cwd, "LOG"))
         # fix: file vs fix_string
-        of, fixed = app.fix_text(sb, doc, name="e.md", enable=sel_e or None, disable=sel_d or None)
+        of, fixed = app.fix_text(sb, doc, name="e.md", enable=sel_e or None, disable=sel_d or None, extra=sch_args)
         if not app.fix_error_kind(of) and fixed is not None:
             try:
                 fr = api().fix_string(doc)
